@@ -10,18 +10,22 @@
 (*                                                                         *)
 (* One trace per distribution, one event per parameter set:                *)
 (*  op  [a |-> "poisson", K]            support 0..K                       *)
-(*      [a |-> "normal" / "lognormal", n, hd, sub]                         *)
-(*          grid of n+1 points, spacing 1/hd (in x for normal, in ln x for *)
-(*          lognormal), moments on every sub-th point                      *)
-(*  ret [errs |-> <<names of functions that raised>>,                      *)
-(*       den  |-> Q*density (lognormal: Q * pdf(x) * x, the density of ln x),*)
+(*      [a |-> "normal" / "lognormal", n, hd, sub]   STANDARDISED grid     *)
+(*          z_i = (i - n/2)/hd, x = loc + scale z (ln x for lognormal),    *)
+(*          moments on every sub-th point                                  *)
+(*  ret [errs |-> <<functions that raised>>, nonfinite |-> <<functions     *)
+(*          that returned NaN / inf>>  (clauses Total, Finite),            *)
+(*       den  |-> Q*density (continuous: density of z = pdf * scale [* x]),*)
 (*       eld  |-> Q*exp(logdensity) (same scaling),                        *)
 (*       cdf  |-> Q*cdf,  elc |-> Q*exp(logcdf),                           *)
-(*       mean, var |-> Q*mean(..), Q*variance(..),                         *)
-(*       loc, rtloc, scale, rtscale |-> Q*parameters and their round trip  *)
-(*           through params_mv(mean, variance)    (not for poisson)        *)
-(*       m1, m2 |-> lognormal only: Q * first / second central moment of   *)
-(*           the logged density by float64 quadrature in the harness]      *)
+(*       denb, cdfb |-> the same values obtained from ONE call with tensor *)
+(*          parameters broadcast over all parameter sets of the trace,     *)
+(*       mean, var |-> poisson: Q*mean, Q*variance (meanb: tensor call);   *)
+(*          normal: Q*(mean - loc)/scale, Q*variance/scale^2,              *)
+(*       rtloc, rtscale |-> Q*(loc' - loc)/scale, Q*scale'/scale for       *)
+(*          (loc', scale') = params_mv(mean, variance)  (continuous),      *)
+(*       m1r, m2r |-> lognormal: Q * (moment of the logged density by      *)
+(*          float64 quadrature in the harness) / (stated mean, variance)]  *)
 (***************************************************************************)
 EXTENDS Integers, Sequences, FiniteSets, SequencesExt, Json, IOUtils, TLC, TLCExt
 
@@ -57,6 +61,7 @@ Close(x, y, abs, relppm) == AbsV(x - y) <= abs + (MaxI(AbsV(x), AbsV(y)) \div 10
 PoissonRange(o, r) ==
   /\ Len(r.den) = o.K + 1 /\ Len(r.eld) = o.K + 1 /\ Len(r.cdf) = o.K + 1 /\ Len(r.elc) = o.K + 1
   /\ InRange(r.den, 0, 2 * Q) /\ InRange(r.eld, 0, 2 * Q) /\ InRange(r.cdf, 0, 2 * Q) /\ InRange(r.elc, 0, 2 * Q)
+  /\ Len(r.denb) = o.K + 1 /\ Len(r.cdfb) = o.K + 1 /\ InRange(r.denb, 0, 2 * Q) /\ InRange(r.cdfb, 0, 2 * Q)
   /\ 0 <= r.mean /\ r.mean <= 40 * Q /\ 0 <= r.var /\ r.var <= 400 * Q
 PoissonFailing(o, r) ==
   LET K == o.K
@@ -72,6 +77,8 @@ PoissonFailing(o, r) ==
      \cup (IF \E k \in 0..K : ~Close(r.elc[k + 1], cdf(k), 3, 5) THEN {"LogCdf"} ELSE {})
      \cup (IF AbsV(Sum(kp, 0, K) - r.mean) > (K * K) \div 2 + 50 THEN {"Mean"} ELSE {})
      \cup (IF AbsV(Sum(kkp, 0, K) - (r.var + mm * mm)) > (K * K * K) \div 4 + 2000 THEN {"Variance"} ELSE {})
+     \cup (IF (\E k \in 0..K : AbsV(r.denb[k + 1] - pmf(k)) > 1 \/ AbsV(r.cdfb[k + 1] - cdf(k)) > 1) \/ AbsV(r.meanb - r.mean) > 1
+           THEN {"BroadcastConsistent"} ELSE {})
 
 (***************************************************************************)
 (* Continuous: grid points i = 0..n, spacing 1/hd, centred on the location *)
@@ -80,10 +87,10 @@ ContRange(o, r) ==
   /\ o.hd <= 128 /\ o.n <= 512 /\ o.hd % o.sub = 0 /\ o.n % o.sub = 0
   /\ Len(r.den) = o.n + 1 /\ Len(r.eld) = o.n + 1 /\ Len(r.cdf) = o.n + 1 /\ Len(r.elc) = o.n + 1
   /\ InRange(r.den, 0, 5 * Q) /\ InRange(r.eld, 0, 5 * Q) /\ InRange(r.cdf, 0, 2 * Q) /\ InRange(r.elc, 0, 2 * Q)
-  /\ AbsV(r.mean) <= 1000 * Q /\ 0 <= r.var /\ r.var <= 1000 * Q
-  /\ AbsV(r.loc) <= 1000 * Q /\ AbsV(r.rtloc) <= 1000 * Q /\ AbsV(r.scale) <= 1000 * Q /\ AbsV(r.rtscale) <= 1000 * Q
-  /\ AbsV(r.m1) <= 1000 * Q /\ AbsV(r.m2) <= 1000 * Q
-  /\ (o.a = "normal" => AbsV(r.mean - r.loc) <= Q)
+  /\ Len(r.denb) = o.n + 1 /\ Len(r.cdfb) = o.n + 1 /\ InRange(r.denb, 0, 5 * Q) /\ InRange(r.cdfb, 0, 2 * Q)
+  /\ AbsV(r.mean) <= Q /\ 0 <= r.var /\ r.var <= 1000 * Q
+  /\ AbsV(r.rtloc) <= 1000 * Q /\ AbsV(r.rtscale) <= 1000 * Q
+  /\ AbsV(r.m1r) <= 1000 * Q /\ AbsV(r.m2r) <= 1000 * Q
 ContFailing(o, r) ==
   LET n == o.n
       hd == o.hd
@@ -104,18 +111,21 @@ ContFailing(o, r) ==
      \cup (IF cdf(0) > 2 \/ cdf(n) < Q - 2 \/ AbsV(Sum(trap, 0, n - 1) - 2 * hd * Q) > 2 * hd * (n \div 4 + 40)
            THEN {"IntegratesToOne"} ELSE {})
      \cup (IF \E i \in 0..n : ~Close(r.elc[i + 1], cdf(i), 3, 8) THEN {"LogCdf"} ELSE {})
-     \cup (IF ~Close(r.rtloc, r.loc, 20, 20) \/ ~Close(r.rtscale, r.scale, 20, 20) THEN {"MeanVarianceRoundTrip"} ELSE {})
+     \cup (IF AbsV(r.rtloc) > 40 \/ AbsV(r.rtscale - Q) > 40 THEN {"MeanVarianceRoundTrip"} ELSE {})
+     \cup (IF \E i \in 0..n : AbsV(r.denb[i + 1] - den(i)) > 1 \/ AbsV(r.cdfb[i + 1] - cdf(i)) > 1
+           THEN {"BroadcastConsistent"} ELSE {})
      \cup (IF o.a = "normal"
            THEN \* first moment about loc: SUM off * den / hs^2 ; second: SUM off^2 * den / hs^3
                 \* slack = worst-case quantisation of the sum + tolerance of the law
-                (IF AbsV(Sum(s1, 0, ns) - hs * hs * (r.mean - r.loc)) > (ns * ns) \div 4 + hs * hs * 40 THEN {"Mean"} ELSE {})
+                (IF AbsV(Sum(s1, 0, ns) - hs * hs * r.mean) > (ns * ns) \div 4 + hs * hs * 40 THEN {"Mean"} ELSE {})
                 \cup (IF AbsV(Sum(s2, 0, ns) - SafeMul(hs * hs * hs, r.var)) > (ns * ns * ns) \div 12 + hs * hs * hs * (MinI(r.var, 20 * Q) \div 2000 + 40)
                       THEN {"Variance"} ELSE {})
-           ELSE (IF ~Close(r.m1, r.mean, 40, 300) THEN {"Mean"} ELSE {})
-                \cup (IF ~Close(r.m2, r.var, 40, 600) THEN {"Variance"} ELSE {}))
+           ELSE (IF AbsV(r.m1r - Q) > 300 THEN {"Mean"} ELSE {})
+                \cup (IF AbsV(r.m2r - Q) > 1000 THEN {"Variance"} ELSE {}))
 
 Failing(e) ==
   IF Len(e.ret.errs) > 0 THEN {"Total"}
+  ELSE IF Len(e.ret.nonfinite) > 0 THEN {"Finite"}      \* a NaN / inf observation is a rejection, never a number
   ELSE IF e.op.a = "poisson"
        THEN IF PoissonRange(e.op, e.ret) THEN PoissonFailing(e.op, e.ret) ELSE {"Range"}
        ELSE IF ContRange(e.op, e.ret) THEN ContFailing(e.op, e.ret) ELSE {"Range"}
@@ -129,7 +139,8 @@ TraceSpec == Init /\ [][Step]_vars
 Track ==
   /\ TLCSet(100 + tid, MaxI(TLCGet(100 + tid), l))
   /\ IF l <= Len(Evs(tid)) /\ ~(l \in Waived(tid)) /\ Failing(Evs(tid)[l]) # {}
-     THEN PrintT(ToJson([diag |-> tid, l |-> l, clauses |-> Failing(Evs(tid)[l]), errs |-> Evs(tid)[l].ret.errs]))
+     THEN PrintT(ToJson([diag |-> tid, l |-> l, clauses |-> Failing(Evs(tid)[l]),
+                         errs |-> Evs(tid)[l].ret.errs \o Evs(tid)[l].ret.nonfinite]))
      ELSE TRUE
 
 Post ==
